@@ -124,11 +124,15 @@ var dims = []dim{
 	{"ExitNum", []string{"actual", "other"}},
 	{"StderrMatch", []string{"none", "equal", "different"}},
 	{"StderrRegex", []string{"none", "match", "no-match", "invalid"}},
+	// set-up and clear-down blocks: they run, their exit numbers are reported as information only and must
+	// never take the place of the function's own exit number, stdout or stderr
+	{"PreBlock", []string{"none", "fails"}},
+	{"PostBlock", []string{"none", "succeeds", "fails"}},
 }
 
 // baseline choice per dimension (quick tier varies at most 4 dimensions away from it). StderrMatch's
 // baseline is "equal" so that the baseline plan passes for functions that write to stderr too.
-var baseline = []int{0, 0, 0, 0, 0, 0, 0, 1, 0}
+var baseline = []int{0, 0, 0, 0, 0, 0, 0, 1, 0, 0, 0}
 
 func otherType(dt string) string {
 	if dt == "json" {
@@ -195,6 +199,13 @@ func buildPlan(f fnSpec, ch []int) (plan map[string]any, ok bool) {
 					return nil, false
 				}
 				plan["StdoutGreaterThan"] = f.out.n + 1
+			}
+		case "PreBlock", "PostBlock":
+			switch choice {
+			case "succeeds":
+				plan[dims[d].name] = "true"
+			case "fails":
+				plan[dims[d].name] = "false"
 			}
 		case "ExitNum":
 			n := f.exit
@@ -526,7 +537,7 @@ func replay(c *vlib.Ctx, w string) {
 func init() {
 	vlib.Register(&vlib.Check{
 		ID: "C31", Engine: "E2",
-		Rule:   "functions = {stdout: empty(str), a\\n(str), [\"a\",\"b\"](json), {\"k\":1}(json), 7(json)} x {stderr: empty, e\\n} x {exit 0,1,3} (30, each a one-command function with exactly that behaviour); plans = product of StdoutMatch {none,equal,different} x StdoutRegex {none,match,no-match,invalid} x StdoutType {none,right,wrong} x StdoutIsArray x StdoutIsMap x StdoutGreaterThan {none,length-1,length+1} x ExitNum {actual,other} x StderrMatch {none,equal,different} x StderrRegex {none,match,no-match,invalid}, combinations that do not exist for a function (equality with an empty stream, lengths of non-collections) dropped; thorough = the full product, quick = every plan differing from the all-pass baseline in at most 4 dimensions. Per case the plan is registered with `test unit function NAME <json>` (unit-test registry emptied first), then lang.GlobalUnitTests.Run (boolean) and `test run NAME` (exit number) are observed with test enabled and auto-report off; oracle: passed <=> every assertion present in the plan holds on the known outputs (the oracle evaluates the plan JSON itself). PLUS multi-plan runs: three functions, every pass/fail assignment and every registration order, all plans run together with `*`: each plan must be reported on its own merits. Non-trivial = plans with at least two assertions besides the exit number (their conjunction decides the verdict)",
+		Rule:   "functions = {stdout: empty(str), a\\n(str), [\"a\",\"b\"](json), {\"k\":1}(json), 7(json)} x {stderr: empty, e\\n} x {exit 0,1,3} (30, each a one-command function with exactly that behaviour); plans = product of StdoutMatch {none,equal,different} x StdoutRegex {none,match,no-match,invalid} x StdoutType {none,right,wrong} x StdoutIsArray x StdoutIsMap x StdoutGreaterThan {none,length-1,length+1} x ExitNum {actual,other} x StderrMatch {none,equal,different} x StderrRegex {none,match,no-match,invalid} x PreBlock {none, `false`} x PostBlock {none, `true`, `false`} (blocks that must not influence the verdict), combinations that do not exist for a function (equality with an empty stream, lengths of non-collections) dropped; thorough = the full product, quick = every plan differing from the all-pass baseline in at most 4 dimensions. Per case the plan is registered with `test unit function NAME <json>` (unit-test registry emptied first), then lang.GlobalUnitTests.Run (boolean) and `test run NAME` (exit number) are observed with test enabled and auto-report off; oracle: passed <=> every assertion present in the plan holds on the known outputs (the oracle evaluates the plan JSON itself). PLUS multi-plan runs: three functions, every pass/fail assignment and every registration order, all plans run together with `*`: each plan must be reported on its own merits. Non-trivial = plans with at least two assertions besides the exit number (their conjunction decides the verdict)",
 		Run:    run,
 		Replay: replay,
 		Assumptions: []string{
@@ -534,7 +545,7 @@ func init() {
 			"a str stream counts as an array of its lines (murex's data model: the str unmarshaller returns the list of lines); a json scalar is neither array nor map",
 			"StdoutGreaterThan equal to the length is not generated (name says greater-than, implementation is greater-or-equal) and the length of a scalar is not asserted",
 			"functions end through their last command's exit number, not `return` (a `return` inside a unit-tested function also cancels the caller; outside this property)",
-			"Stdout/StderrBlock, PreBlock/PostBlock, Stdin, Parameters, StderrType/IsArray/IsMap are not varied",
+			"Stdout/StderrBlock, Pre/PostBlocks with output, Stdin, Parameters, StderrType/IsArray/IsMap are not varied",
 		},
 	})
 }
